@@ -1,5 +1,5 @@
 """Process-level execution of the zerv binary and shared CLI case generation."""
-import concurrent.futures, os, re, subprocess, time
+import concurrent.futures, os, re, subprocess, time, collections
 from .common import *
 from . import zgen
 from .c05 import ver, rand_named_flags, flags_to_argv, rand_start_vars, start_to_tag, FULL
@@ -40,11 +40,12 @@ def ron_texts(objs):
     return [unhx(r.split(" ")[1]) for r in out]
 
 
-NOW_RE = re.compile(r"(dev\.?)(\d{9,11})")
+NOW_RE = re.compile(r"(?<!\d)(\d{9,11})(?!\d)")
 
 
 def mask_now(t, now):
-    return NOW_RE.sub(lambda m: m.group(1) + ("NOW" if abs(int(m.group(2)) - now) <= 7200 else m.group(2)), t)
+    """replace any decimal number within two hours of the wall clock by NOW"""
+    return NOW_RE.sub(lambda m: "NOW" if abs(int(m.group(1)) - now) <= 7200 else m.group(1), t)
 
 
 def panicked(rc, err):
